@@ -136,6 +136,26 @@ func genC11(dir, tier string, seed int64) {
 		emitOp(cw, "ConstantOfShape", []attr{aInt("other", 1)}, func() []tensor.Tensor { return []tensor.Tensor{i64v([]int64{2})} })
 	}
 
+	// a `value` tensor the decoder refuses (unsupported element type, truncated raw data, payload that does not
+	// match its dims, no payload at all): the node is refused, never given the default value instead
+	for _, tp := range []*onnx.TensorProto{
+		{DataType: 10, Dims: []int64{1}, RawData: []byte{0, 60}},
+		{DataType: 16, Dims: []int64{1}, RawData: []byte{0, 60}},
+		{DataType: 8, Dims: []int64{1}, StringData: [][]byte{[]byte("x")}},
+		{DataType: 1, Dims: []int64{1}, RawData: []byte{0, 0, 128}},
+		{DataType: 1, Dims: []int64{2}, FloatData: []float32{1}},
+		{DataType: 7, Dims: []int64{1}},
+		{DataType: 1, Dims: []int64{-1}, FloatData: []float32{1}},
+	} {
+		tp := tp
+		why := "<a tensor the decoder refuses>"
+		for _, nm := range []string{"value"} {
+			a := attr{name: nm, kind: "str", s: &why, tp: tp}
+			emitOp(cw, "ConstantOfShape", []attr{a}, func() []tensor.Tensor { return []tensor.Tensor{i64v([]int64{2})} })
+			emitOp(cw, "Constant", []attr{a}, func() []tensor.Tensor { return nil })
+		}
+	}
+
 	// ---------------- Constant ----------------
 	for ti := 0; ti < 11; ti++ {
 		for rep := 0; rep < reps+1; rep++ {
